@@ -15,4 +15,5 @@ pub mod eng_format;
 pub mod eng_fault;
 pub mod eng_conf;
 pub mod eng_cli;
+pub mod eng_keys;
 pub mod alloc;
